@@ -440,6 +440,10 @@ V("f-b2c-f-nested-in-v", "fire", ["C15", "C04"], TS, "            if f:\n       
 V("f-w-result-after-loop", "fire", ["C03"], SW, "            if result == False:\n                return False\n        return True\n", "        if result == False:\n            return False\n        return True\n",
   note="campaign 6: only the tie handled last decides")
 V("f-tpo2ranks-return-in-loop", "fire", ["C18"], PO, "            ranks[world] = rank_function(layer_num)\n    return ranks\n", "            ranks[world] = rank_function(layer_num)\n        return ranks\n")
+V("s-avg-guard-by-count", "silent", ["C14", "C06", "C13"], INF, "                \"average_query_time_ms\": total_inference_time / len(queries)\n                if queries\n                else 0,\n",
+  "                \"average_query_time_ms\": total_inference_time / len(queries)\n                if len(queries)\n                else 0,\n", note="the division guarded by the count instead of the mapping")
+V("f-avg-over-answered", "fire", ["C14"], INF, "                \"average_query_time_ms\": total_inference_time / len(queries)\n", "                \"average_query_time_ms\": total_inference_time / successful_queries\n",
+  note="round 4: every query expired -> ZeroDivisionError in the log record, the flagged rows never reach the caller")
 
 
 def main():
